@@ -82,11 +82,11 @@ def _lazy(mod):
     return fn
 
 
-for _p, _m in (("C18", "c18"), ("C17", "c17"), ("C20", "c20"), ("C15", "c15")):
+for _p, _m in (("C18", "c18"), ("C17", "c17"), ("C20", "c20"), ("C15", "c15"), ("C14", "c14"), ("C16", "c16"), ("C13", "c13")):
     REGISTRY[_p] = _lazy(_m)
 
 
-MODS = {"C18": "c18", "C17": "c17", "C20": "c20", "C15": "c15"}
+MODS = {"C18": "c18", "C17": "c17", "C20": "c20", "C15": "c15", "C13": "c13", "C16": "c16"}
 
 
 def replay(prop, payload):
